@@ -32,7 +32,7 @@ func main() {
 		"C07": {"history", "cutmany", "fixed"},
 		"C10": {"malformed", "wire-fuzz"},
 		"C11": {"one-packet", "cut1", "cutmany", "history", "consumer"},
-		"C14": {"cut-offset", "reads-random-cut", "complete", "cut-timeout"},
+		"C14": {"cut-offset", "reads-random-cut", "complete", "cut-timeout", "write-fail"},
 	}
 	if fs, ok := families[*prop]; ok {
 		sel := map[string]bool{}
@@ -44,4 +44,5 @@ func main() {
 	core.GenRx(g)
 	core.GenConsumer(g)
 	core.GenTransport(g)
+	core.GenWriteFail(g)
 }
